@@ -11,8 +11,12 @@ import (
 
 func Run(o *drv.Out) {
 	chains, blocks := 150, 12
-	if o.Tier == "thorough" || o.Search {
+	if o.Tier == "thorough" {
 		chains, blocks = 1200, 20
+	} else if o.Search {
+		// an obligation broke and the first pass found no failing input: three more seeds of about 2.5x the quick
+		// size each (the full thorough size made the search phase take several minutes)
+		chains, blocks = 360, 14
 	}
 	ledger.Scenarios(o, "C04")
 	for i := 0; i < chains; i++ {
@@ -22,6 +26,12 @@ func Run(o *drv.Out) {
 		if dex {
 			g.AddPool(2+ledger.LiquidityPoolAddend, uint64(1_000_000_000+o.Rng.Int63n(1<<40)))
 		}
+		eth := i%8 == 3 // every 8th chain ends with blocks carrying RLP.V2 (Ethereum-signed) sends, oracle-only
+		if eth {
+			for _, k := range ledger.EthKeys {
+				g.Accounts = append(g.Accounts, ledger.GenAcc{Addr: k.Addr, Amount: uint64(1_000_000 + o.Rng.Int63n(1<<36))})
+			}
+		}
 		c, ok := ledger.NewChain(o, "C04", g)
 		if !ok {
 			o.Count("genesis.rejected")
@@ -30,6 +40,11 @@ func Run(o *drv.Out) {
 		o.Count("genesis.ok")
 		for b := 0; b < blocks; b++ {
 			c.RandomBlock(o.Rng)
+		}
+		if eth {
+			for b := 0; b < 4; b++ {
+				c.RandomEthBlock(o.Rng)
+			}
 		}
 		if dex && !c.NearMax {
 			c.RandomDexBatches(o.Rng)
